@@ -78,6 +78,7 @@ type C struct {
 	broken      []string
 	known       map[string]string // stable key -> text
 	capped      bool
+	subDeadline time.Time
 }
 
 // NewC builds a context from the environment.
@@ -148,13 +149,32 @@ func Pick[T any](c *C, q, t T) T {
 // TimeUp reports whether the soft budget is used up; the caller must then stop
 // exploring, and the run is reported as not exhaustive.
 func (c *C) TimeUp() bool {
-	if time.Since(c.Start) > c.Budget {
+	c.mu.Lock()
+	sub := c.subDeadline
+	c.mu.Unlock()
+	if time.Since(c.Start) > c.Budget || (!sub.IsZero() && time.Now().After(sub)) {
 		c.mu.Lock()
 		c.capped = true
 		c.mu.Unlock()
 		return true
 	}
 	return false
+}
+
+// SubBudget limits the current part of a multi-part check to the given share (0..1) of the
+// remaining budget; pass 0 to clear.
+func (c *C) SubBudget(share float64) {
+	c.mu.Lock()
+	defer c.mu.Unlock()
+	if share <= 0 {
+		c.subDeadline = time.Time{}
+		return
+	}
+	rem := c.Budget - time.Since(c.Start)
+	if rem < 0 {
+		rem = 0
+	}
+	c.subDeadline = time.Now().Add(time.Duration(float64(rem) * share))
 }
 
 // Capped reports whether TimeUp ever returned true.
@@ -364,5 +384,8 @@ func RunFromEnv(t *testing.T) {
 	}
 	code := c.Finish()
 	pprof.StopCPUProfile()
+	if code == 0 {
+		return // `go test` forbids os.Exit(0) inside a test; a passing test exits 0 by itself
+	}
 	os.Exit(code)
 }
